@@ -131,7 +131,7 @@ impl Env for PathEnv {
 
 fn symbol_tables() -> Vec<(&'static str, BTreeMap<String, RV>)> {
     let mut n = 5000;
-    let deep = Tpl::Map(vec![("a", Tpl::List(vec![Tpl::Leaf, Tpl::Map(vec![("a", Tpl::Leaf), ("A", Tpl::Leaf)])])), ("A", Tpl::Leaf), ("facts", Tpl::Leaf)]);
+    let deep = Tpl::Map(vec![("a", Tpl::List(vec![Tpl::Leaf, Tpl::Map(vec![("a", Tpl::Leaf), ("A", Tpl::Leaf)])])), ("A", Tpl::Leaf), ("facts", Tpl::Leaf), ("0", Tpl::Leaf), ("ab", Tpl::Map(vec![("0", Tpl::Leaf), ("1", Tpl::None), ("a", Tpl::None)]))]);
     let s_val = instantiate(&deep, &mut n);
     let big_s = instantiate(&deep, &mut n);
     vec![
@@ -145,7 +145,7 @@ fn symbol_tables() -> Vec<(&'static str, BTreeMap<String, RV>)> {
 
 fn function_value() -> RV {
     let mut n = 9000;
-    instantiate(&Tpl::Map(vec![("a", Tpl::List(vec![Tpl::Leaf, Tpl::Leaf])), ("A", Tpl::Map(vec![("a", Tpl::Leaf)])), ("ab", Tpl::None)]), &mut n)
+    instantiate(&Tpl::Map(vec![("a", Tpl::List(vec![Tpl::Leaf, Tpl::Leaf])), ("A", Tpl::Map(vec![("a", Tpl::Leaf), ("0", Tpl::Leaf), ("1", Tpl::Leaf)])), ("ab", Tpl::None), ("0", Tpl::Leaf)]), &mut n)
 }
 
 pub fn run(tier: Tier) -> i32 {
@@ -166,6 +166,12 @@ pub fn run(tier: Tier) -> i32 {
         let keys = ["a", "A", "ab", "abc", "b", "facts", "k0", "k1", "k10", "k11", "k2", "z"];
         inputs.push(instantiate(&Tpl::Map(keys.iter().map(|k| (*k, wide_list.clone())).collect()), &mut n));
         inputs.push(instantiate(&Tpl::List((0..12).map(|_| wide_list.clone()).collect()), &mut n));
+    }
+    // maps whose keys are spelled like positions: a numeric step never addresses them
+    {
+        let mut n = 70_000;
+        let digits = Tpl::Map(vec![("0", Tpl::Leaf), ("1", Tpl::Leaf), ("2", Tpl::Leaf), ("11", Tpl::Leaf), ("a", Tpl::Leaf), ("18446744073709551615", Tpl::Leaf)]);
+        inputs.push(instantiate(&Tpl::Map(vec![("a", digits.clone()), ("A", Tpl::List(vec![digits.clone(), Tpl::Leaf])), ("0", Tpl::Leaf), ("1", Tpl::List(vec![Tpl::Leaf, Tpl::Leaf])), ("ab", Tpl::Map(vec![("0", digits.clone())]))]), &mut n));
     }
     inputs.push(RV::Str("scalar".into()));
     inputs.push(RV::Bool(true));
